@@ -31,3 +31,32 @@ pub mod lemmas {
         mul_zero_one,
     }
 }
+
+//@if failstop
+// D7: models of Rust's panic and bounds-check semantics for the fail-stop reading.
+pub mod failstop {
+    use vstd::prelude::*;
+
+    /// `panic!` / a failed `assert!`: never returns.
+    #[verifier::external_body]
+    pub fn diverge() -> ! {
+        panic!()
+    }
+
+    /// `slice[i]`: returns only if `i` is in bounds.
+    #[verifier::external_body]
+    pub fn checked_index_ref<T>(v: &[T], i: usize) -> (r: &T)
+        ensures i < v@.len(), *r == v@[i as int],
+    {
+        &v[i]
+    }
+
+    /// `vec[i]`: returns only if `i` is in bounds.
+    #[verifier::external_body]
+    pub fn checked_index_vec<T>(v: &Vec<T>, i: usize) -> (r: &T)
+        ensures i < v@.len(), *r == v@[i as int],
+    {
+        &v[i]
+    }
+}
+//@endif
